@@ -981,8 +981,14 @@ pub fn generate(ctx: &Ctx, prop: &str, rng: &mut Rng64, thorough: bool, index: u
     let mut heavy_budget = 1; // at most one search per session that has to be stopped from outside
     // four sessions in ten stay with one family of positions
     let theme: Option<Pos> = if rng.chance(400) {
-        let base = Pos::from_fen(rng.pick(corpus::RIGHTS)).unwrap();
-        Some(if rng.chance(300) { corpus::random_play(rng, &base, 2).0 } else { base })
+        if rng.chance(350) {
+            // an opening position where castling is a book move: its siblings (other castling
+            // rights) share the placement, and the book answers without a search
+            Some(corpus::book_castle_position(rng))
+        } else {
+            let base = Pos::from_fen(rng.pick(corpus::RIGHTS)).unwrap();
+            Some(if rng.chance(300) { corpus::random_play(rng, &base, 2).0 } else { base })
+        }
     } else {
         None
     };
